@@ -299,13 +299,17 @@ def fixed_layout(stmts, rng, user_names, wrap=72, contc="&", cmt="C", label_styl
             L.comments.append((len(L.lines), L.lines[-1], "full"))
         body = ("%s: " % s.name if s.name else "") + s.text
         lab = "" if s.label is None else str(s.label)
-        lab5 = {"left": lab.ljust(5), "right": lab.rjust(5), "mid": (" " + lab).ljust(5)}[label_style][:5]
+        # "spaced": blanks are insignificant in fixed form, also inside a label ('1 0' is label 10)
+        spaced = (lab[:1] + " " + lab[1:]) if len(lab) in (2, 3, 4) else lab
+        lab5 = {"left": lab.ljust(5), "right": lab.rjust(5), "mid": (" " + lab).ljust(5),
+                "spaced": spaced.ljust(5)}[label_style][:5]
         width = max(1, wrap - 6)
         chunks = [body[k:k + width] for k in range(0, len(body), width)] or [""]
         # a chunk must not end with blanks inside a literal (trailing blanks of a physical line are lost: F10)
         first = len(L.lines) + 1
         for k, chn in enumerate(chunks):
-            L.lines.append((lab5 + " " if k == 0 else "     " + contc) + chn)
+            # column 6 of an initial line: a blank or (as the standard allows) a zero
+            L.lines.append((lab5 + (" " if rng.random() < 0.85 else "0") if k == 0 else "     " + contc) + chn)
             if k < len(chunks) - 1 and comments and rng.random() < p_comment:
                 L.lines.append(cline())
                 L.comments.append((len(L.lines), L.lines[-1], "incont"))
